@@ -482,20 +482,29 @@ impl MqttShared {
         }
     }
 
-    /// Register ack in response channel
+    /// Send packet and register ack in response channel
     pub(super) fn wait_response(
         &self,
         id: num::NonZeroU16,
         ack: AckType,
+        pkt: codec::Packet,
     ) -> Result<pool::Receiver<Ack>, SendPacketError> {
+        self.check_streaming()?;
+
         let mut queues = self.queues.borrow_mut();
         if queues.inflight_ids.contains(&id) {
             Err(SendPacketError::PacketIdInUse(id))
         } else {
-            let (tx, rx) = self.pool.queue.channel();
-            queues.inflight.push_back((id, Some(tx), ack));
-            queues.inflight_ids.insert(id);
-            Ok(rx)
+            // register response only if packet is written
+            match self.io.encode(Encoded::Packet(pkt), &self.codec) {
+                Ok(()) => {
+                    let (tx, rx) = self.pool.queue.channel();
+                    queues.inflight.push_back((id, Some(tx), ack));
+                    queues.inflight_ids.insert(id);
+                    Ok(rx)
+                }
+                Err(e) => Err(SendPacketError::Encode(e)),
+            }
         }
     }
 
